@@ -75,6 +75,8 @@ class Bridge:
                 return tuple(items)
             if array_form == 2:
                 return (x for x in items)
+            if array_form == 3 and t.kind == "int" and all(isinstance(x, int) and 0 <= x < 256 for x in items):
+                items = bytearray(items)  # a mutable Iterable[int] that is not a list
             if handles is not None:
                 handles.append(items)
             return items
